@@ -366,6 +366,30 @@ FIXED = [
     [("D", "v", "i", ("n", 0)), ("L", "A", ("W", ("o", "lt", ("v", "i"), ("n", 3)), ("B", [("X", ("=", "i", ("o", "add", ("v", "i"), ("n", 1)))), ("D", "v", "j", ("n", 0)), ("W", ("o", "lt", ("v", "j"), ("n", 3)), ("B", [("X", ("=", "j", ("o", "add", ("v", "j"), ("n", 1)))), ("I", ("o", "seq", ("v", "j"), ("n", 2)), ("C", "A"), None), ("P", [("v", "i"), ("v", "j")])]))])))],
 ]
 
+# Hand-derived expectations (ECMA-262) for constructs OUTSIDE the Lean fragment. These are tests, not proofs: they keep the
+# witnesses of repaired defects and of seeded changes alive; each entry is (source, printed lines).
+SPEC_FACTS = [
+    ("function h(a, g = 0) { var a; print(a); var b; print(b); } h(1);", ["1", "undefined"]),
+    ("function f(a, g = () => a) { var a; print(a); a = 2; print(a, g()); } f(1);", ["1", "2 1"]),
+    ("function k(a, g = () => a) { var a = 5; return [a, g()].join(); } print(k(1));", ["5,1"]),
+    ("function k2(a = 1, g = () => a) { var a; a++; return [a, g()].join(); } print(k2());", ["2,1"]),
+    ("function k4(a, g = () => a) { var a; function a() {} return [typeof a, g()].join(); } print(k4(3));", ["function,3"]),
+    ("var z = 0, m = -5; print(Object.is(z / m, -0), Object.is(z * m, -0), Object.is(z % m, 0), Object.is(-z, -0));", ["true true true true"]),
+    ("var m = (-2147483647 - 1) | 0; print(m % -1, Object.is(m % -1, -0), m / -1, -m, m * -1);", ["0 true 2147483648 2147483648 2147483648"]),
+    ("var o = { valueOf() { return 42; }, toString() { return 'forty-two'; } }; print('total: ' + o, o + ' units', `${o}`, [o] + '', o + 1);", ["total: 42 42 units forty-two forty-two 43"]),
+    ("var fs = []; var g; for (let i = (g = () => i, 0); i < 3; i++) { if (i === 0) { i = 10; i = 0; } fs.push(() => i); } print(g(), fs.map(f => f()).join());", ["0 0,1,2"]),
+    ("var g; for (let x = (g = () => x, 1); ; ) { x = 2; break; } print(g());", ["1"]),
+    ("var i = 0, out = []; do { i++; out.push(i); if (i < 3) continue; } while (false); print(out.join());", ["1"]),
+    ("var out = []; outer: do { for (var j = 0; j < 2; j++) { out.push(j); if (j === 1) continue outer; } } while (false); print(out.join());", ["0,1"]),
+    ("var n = 0; do { try { n++; continue; } finally { n += 10; } } while (n < 5); print(n);", ["11"]),
+    ("print(eval('1; do { 2; continue; } while (false)'), eval('3; do { } while (false)'), eval('4; for (var q = 0; q < 1; q++) { 5; continue; }'));", ["2 undefined 5"]),
+    ("function f(){ let x = 1; return x + (x = 5); } print(f()); function g(){ let p = '5'; return typeof (p++); } print(g());", ["6", "number"]),
+    ("print(1 + undefined, '1' + null, [] + {}, 1 < '2', 'a' < 'b', null == undefined, null == 0, NaN != NaN, '2' * '3', 2 ** 3 ** 2, -(2 ** 2), 7 % -3, -7 % 3);", ["NaN 1null [object Object] true true true false true 6 512 -4 1 -1"]),
+    ("print(2147483647 + 1, -2147483648 - 1, 65536 * 65536, 1 / 3 * 3, (0.1 + 0.2).toFixed(2), 5 / 2, 6 / 3, -1 >>> 0, 1 << 31, 1 << 32, 5 >> 1, -5 >> 1);", ["2147483648 -2147483649 4294967296 1 0.30 2.5 2 4294967295 -2147483648 1 2 -3"]),
+    ("var log = []; function t(n, v) { log.push(n); return v; } t('a', 0) || t('b', 1) && t('c', 0) ?? t('d', 1); t('e', null) ?? t('f', 2); print(log.join());", None),
+    ("var log = []; function t(n, v) { log.push(n); return v; } (t('a', 0) || t('b', 1)) && t('c', 0); t('e', null) ?? t('f', 2); t('g', 1) ? t('h', 1) : t('i', 1); print(log.join());", ["a,b,c,e,f,g,h"]),
+]
+
 ROUTES = [
     ("bytes", lambda p: p),
     ("function-call", lambda p: "(function(){ %s })();" % p),
@@ -451,6 +475,23 @@ def run(ck):
                 k = next((x for x in range(min(len(base["out"]), len(o["out"]))) if base["out"][x] != o["out"][x]), min(len(base["out"]), len(o["out"])))
                 ck.fail_input({"site": "trace-depends-on-entry-route:" + name, "input": p, "expected": {"out": base["out"][k:k + 3], "completion": base_c},
                                "actual": {"out": o["out"][k:k + 3], "completion": o_c}, "oracle": "the same program evaluated as a script"})
+    # ---- (iii) hand-derived expectations outside the fragment (tests)
+    fsrc = []
+    facts = [(a, b) for a, b in SPEC_FACTS if b is not None]
+    for i, (p, _) in enumerate(facts):
+        fsrc.append("//// f%d budget=3000000" % i)
+        fsrc.append(p)
+    rc, out, err = ck.run_bin(bins["trace"], input="\n".join(fsrc) + "\n")
+    fres = {}
+    for l in out.split("\n"):
+        if l.startswith("{"):
+            j = json.loads(l)
+            fres[j["id"]] = j
+    for i, (p, want) in enumerate(facts):
+        j = fres.get("f%d" % i)
+        if j is None or j["out"] != want or not j["completion"].startswith("ok"):
+            ck.fail_input({"site": "spec-fact", "input": p, "expected": want, "actual": j and {"out": j["out"], "completion": j["completion"]},
+                           "oracle": "hand-derived from ECMA-262 (regression test, outside the Lean fragment)"})
     ck.oblige("correspondence:engine trace and completion == C01 reference interpreter on %d programs (%d printed lines); %d route comparisons" % (len(progs), stats["lines"], n_routes),
               "correspondence", True)
     ck.coverage.update({
@@ -460,6 +501,7 @@ def run(ck):
                 "immediately-invoked function expressions, if, while/do-while/for(var|let) with counters, labels with break/continue, try/catch/finally, throw, return, nested blocks with shadowing, "
                 "TDZ/const/undeclared probes, closures over per-iteration bindings; %d fixed programs on completion values and finally; route programs from the shared generator x %d routes. distinct = distinct programs" % (len(FIXED), len(ROUTES)),
         "model_outcomes": stats,
+        "spec_facts": len(facts),
         "samples": [js_block(progs[len(FIXED)])[:500]],
         "partial": ["objects, coercions, generators, destructuring, classes are outside the Lean fragment; they are covered only by the route differentials"],
     })
